@@ -514,4 +514,324 @@ Proof.
     unfold mark_cached, get_bundler, put_bundler. destruct (alookup run (bundlers P D s)); auto.
 Qed.
 
+
+(* ------------------------------------------------------------------ 7. the interruption mark is sticky *)
+(* once set, [interrupted] stays set until the next RE(...) or resume(): so after an accepted
+   stop / abort / halt / pause the blocking call reports RunEngineInterrupted unless the task raises *)
+Ltac bm_hyp H :=
+  match type of H with
+  | context [match ?x with _ => _ end] => destruct x eqn:?
+  end.
+Ltac norm_hyps :=
+  repeat match goal with
+         | H : (if ?c then _ else _) = _ |- _ => destruct c eqn:?
+         | H : Some (_, _) = Some (_, _) |- _ => inversion H; subst; clear H
+         | H : (_, _) = (_, _) |- _ => inversion H; subst; clear H
+         | H : match ?x with _ => _ end = (_, _) |- _ => destruct x eqn:?
+         end.
+
+Notation intr := (interrupted P D).
+
+Lemma ct_int (s : st) : intr (cancel_task P D s) = intr s.
+Proof. unfold cancel_task. destruct (pc P D s); reflexivity. Qed.
+
+Lemma dcall_int (s : st) d m s' r o : dcall P D dev s d m = (s', r, o) -> intr s' = intr s.
+Proof. unfold dcall. destruct (dev _ _ _). intros H; inversion H; subst. reflexivity. Qed.
+
+Lemma stop_movables_int (s : st) s' o : stop_movables P D dev s = (s', o) -> intr s' = intr s.
+Proof.
+  unfold stop_movables.
+  assert (G : forall l (s0 : st) o0 s1 o1,
+             fold_left (fun acc d => let '(s0, os) := acc in
+                                     let '(s1, _, o) := dcall P D dev s0 d MStop in (s1, os ++ o)) l (s0, o0) = (s1, o1) ->
+             intr s1 = intr s0).
+  { induction l as [|d l IH]; intros s0 o0 s1 o1 H; cbn in H.
+    - inversion H; subst; reflexivity.
+    - destruct (dcall P D dev s0 d MStop) as [[sa ra] oa] eqn:E. apply dcall_int in E. apply IH in H. congruence. }
+  intros H. eapply G; exact H.
+Qed.
+
+Lemma call_pausables_int (s : st) m s' e o : call_pausables P D dev s m = (s', e, o) -> intr s' = intr s.
+Proof.
+  unfold call_pausables.
+  assert (G : forall l (s0 : st) e0 o0 s1 e1 o1,
+             fold_left (fun acc d =>
+               let '(s0, e, os) := acc in
+               match e with
+               | Some _ => acc
+               | None => if mem_nat d (seen P D s0)
+                         then let '(s1, r, o) := dcall P D dev s0 d m in
+                              (s1, match r with DRaise x => Some x | _ => None end, os ++ o)
+                         else acc
+               end) l (s0, e0, o0) = (s1, e1, o1) -> intr s1 = intr s0).
+  { induction l as [|d l IH]; intros s0 e0 o0 s1 e1 o1 H; cbn in H.
+    - inversion H; subst; reflexivity.
+    - destruct e0.
+      + eapply IH; eassumption.
+      + destruct (mem_nat d (seen P D s0)).
+        * destruct (dcall P D dev s0 d m) as [[sa ra] oa] eqn:E. apply dcall_int in E. apply IH in H. congruence.
+        * eapply IH; eassumption. }
+  intros H. eapply G; exact H.
+Qed.
+
+Lemma record_interruptions_int (s : st) s' o ok : record_interruptions P D s = (s', o, ok) -> intr s' = intr s.
+Proof.
+  unfold record_interruptions. destruct (record_intr_list (bundlers P D s)) as [[bs os] ok0]. intros H; inversion H; subst. reflexivity.
+Qed.
+
+Lemma set_state_int (s : st) x s' o : set_state P D s x = Some (s', o) -> intr s' = intr s.
+Proof. unfold set_state. destruct (allowed (state P D s) x); intros H; inversion H; subst. reflexivity. Qed.
+
+Lemma reset_checkpoint_int (s : st) : intr (reset_checkpoint P D s) = intr s.
+Proof. unfold reset_checkpoint. destruct (cache P D s); reflexivity. Qed.
+
+Lemma rewind_int (s : st) s' l : RE.rewind P D s = (s', l) -> intr s' = intr s.
+Proof.
+  unfold RE.rewind. destruct (cache P D s) as [l0|]; intros H; inversion H; subst; [|reflexivity].
+  destruct (Nat.eqb (List.length l) 0); reflexivity.
+Qed.
+
+Lemma finish_read_int (s : st) run d z o0 s' c o : finish_read P D s run d z o0 = (s', c, o) -> intr s' = intr s.
+Proof.
+  unfold finish_read, get_bundler, put_bundler. destruct (alookup run (bundlers P D s)) as [b|].
+  - destruct (mem_nat d (bobjs b)); intros H; inversion H; subst; reflexivity.
+  - intros H; inversion H; subst; reflexivity.
+Qed.
+
+Lemma mark_cached_int (s : st) run d : intr (mark_cached P D s run d) = intr s.
+Proof. unfold mark_cached, get_bundler, put_bundler. destruct (alookup run (bundlers P D s)); reflexivity. Qed.
+
+Lemma request_pause_mono (s : st) d s' e o : request_pause P D s d = (s', e, o) -> intr s = true -> intr s' = true.
+Proof.
+  unfold request_pause. intros H Hi.
+  destruct (negb (allowed (state P D s) Pausing)); [inversion H; subst; exact Hi|].
+  destruct d; [inversion H; subst; exact Hi|].
+  match type of H with context [set_state P D ?s1 Pausing] => remember s1 as s1' eqn:Es1 end.
+  assert (K1 : intr s1' = true).
+  { subst s1'. destruct (pc P D (interrupt P D (set_deferred P D s false) CzPause)); reflexivity. }
+  destruct (set_state P D s1' Pausing) as [[s2 o1]|] eqn:E2.
+  - apply set_state_int in E2. destruct (record_interruptions P D s2) as [[s3 o2] ok] eqn:E3.
+    apply record_interruptions_int in E3. destruct ok; inversion H; subst; cbn [interrupted set_ghost]; rewrite ?ct_int; congruence.
+  - inversion H; subst. exact K1.
+Qed.
+
+Lemma exec_cmd_mono (s : st) m s' c o : exec_cmd P D dev s m = (s', c, o) -> intr s = true -> intr s' = true.
+Proof.
+  unfold exec_cmd, get_bundler, put_bundler. intros H Hi.
+  destruct (mcmd m);
+    repeat (bm_hyp H);
+    repeat match goal with
+           | Hd : dcall _ _ _ _ _ _ = _ |- _ => apply dcall_int in Hd
+           | Hd : call_pausables _ _ _ _ _ = _ |- _ => apply call_pausables_int in Hd
+           | Hd : finish_read _ _ _ _ _ _ _ = _ |- _ => apply finish_read_int in Hd
+           | Hd : request_pause _ _ _ _ = _ |- _ => apply request_pause_mono in Hd; [|exact Hi]
+           end;
+    inversion H; subst; clear H;
+    rewrite ?reset_checkpoint_int;
+    cbn [interrupted set_cache set_rewindable set_bundlers set_moved set_staged set_groups set_statuses add_status map_bundlers upd upd2] in *;
+    rewrite ?reset_checkpoint_int;
+    cbn [interrupted set_cache set_rewindable set_bundlers set_moved set_staged set_groups set_statuses add_status map_bundlers upd upd2] in *;
+    try congruence.
+  exact Hi.
+Qed.
+
+
+Lemma exec_start_suspender_int (s : st) sid pre post s' c o :
+  exec_start_suspender P plan_of D dev s sid pre post = (s', c, o) -> intr s' = intr s.
+Proof.
+  unfold exec_start_suspender. intros H.
+  repeat (bm_hyp H);
+    repeat match goal with
+           | Hd : record_interruptions _ _ _ = _ |- _ => apply record_interruptions_int in Hd
+           | Hd : stop_movables _ _ _ _ = _ |- _ => apply stop_movables_int in Hd
+           | Hd : call_pausables _ _ _ _ _ = _ |- _ => apply call_pausables_int in Hd
+           | Hd : RE.rewind _ _ _ = _ |- _ => apply rewind_int in Hd
+           end;
+    inversion H; subst; clear H; cbn [interrupted push_frame set_resps set_plans upd]; congruence.
+Qed.
+
+Lemma finalize_int (s : st) r pend s' o : finalize P presume D dev s r pend = (s', o) -> intr s' = intr s.
+Proof.
+  unfold finalize.
+  destruct (stop_movables P D dev (set_pardon P D s true)) as [s2 o2] eqn:E2. apply stop_movables_int in E2.
+  match goal with |- context [fold_left ?f ?l ?a] => destruct (fold_left f l a) as [s3 o3] eqn:E3 end.
+  assert (E3' : intr s3 = intr s2).
+  { revert E3. generalize (staged P D s2) (@nil obs). intros l. revert s2 E2.
+    induction l as [|d l IH]; intros s2 E2 o0 H; cbn in H.
+    - inversion H; subst; reflexivity.
+    - destruct (dcall P D dev s2 d MUnstage) as [[sa ra] oa] eqn:E. apply dcall_int in E.
+      apply (IH sa) in H; [congruence | congruence]. }
+  unfold set_state. destruct (allowed _ Idle); intros H; inversion H; subst; cbn [interrupted set_blocking set_pc set_state_raw set_bundlers set_staged upd upd2]; cbn [interrupted set_pardon upd2] in E2; congruence.
+Qed.
+
+Ltac use_int :=
+  repeat match goal with
+         | Hd : dcall _ _ _ _ _ _ = _ |- _ => apply dcall_int in Hd
+         | Hd : stop_movables _ _ _ _ = _ |- _ => apply stop_movables_int in Hd
+         | Hd : call_pausables _ _ _ _ _ = _ |- _ => apply call_pausables_int in Hd
+         | Hd : set_state _ _ _ _ = Some _ |- _ => apply set_state_int in Hd
+         | Hd : record_interruptions _ _ _ = _ |- _ => apply record_interruptions_int in Hd
+         | Hd : finish_read _ _ _ _ _ _ _ = _ |- _ => apply finish_read_int in Hd
+         | Hd : finalize _ _ _ _ _ _ _ = _ |- _ => apply finalize_int in Hd
+         | Hd : RE.rewind _ _ _ = _ |- _ => apply rewind_int in Hd
+         | Hd : frame_resume _ _ _ _ = _ |- _ => clear Hd
+         end.
+Ltac solve_int :=
+  rewrite ?ct_int, ?mark_cached_int, ?reset_checkpoint_int in *;
+  cbn [interrupted set_state_raw set_pc set_must_cancel set_permit set_blocking set_plans set_resps set_cache set_rewindable
+       set_exc_slot set_stashed set_deferred set_exit upd set_bundlers set_staged set_moved set_seen set_groups
+       set_statuses set_futs set_uids set_pardon set_dst set_task_set upd2 set_ghost interrupt set_interrupted set_main set_mreq set_ers
+       pop_plan replace_top push_frame] in *;
+  rewrite ?ct_int, ?mark_cached_int, ?reset_checkpoint_int in *;
+  repeat match goal with
+         | Hm : ?a = true -> ?b = true |- _ =>
+             let Hx := fresh in assert (Hx : b = true) by (apply Hm; congruence); clear Hm
+         end;
+  try reflexivity; congruence.
+
+Lemma process_mono (s : st) m s3 cr o3 :
+  (match mcmd m with
+   | CStartSuspender sid pre post => exec_start_suspender P plan_of D dev s sid pre post
+   | _ => exec_cmd P D dev s m
+   end) = (s3, cr, o3) -> intr s = true -> intr s3 = true.
+Proof.
+  destruct (mcmd m) eqn:Hm; intros H Hi; try (eapply exec_cmd_mono; [exact H | exact Hi]).
+  apply exec_start_suspender_int in H. congruence.
+Qed.
+
+Lemma drive_mono fuel : forall (s : st) c os s' o,
+  intr s = true -> drive P presume plan_of D dev fuel s c os = (s', o) -> intr s' = true.
+Proof.
+  induction fuel as [|fuel IH]; intros s c os s' o Hi H; cbn [drive] in H.
+  - inversion H; subst. exact Hi.
+  - destruct c.
+    + repeat (bm_hyp H);
+        try (inversion H; subst; clear H; norm_hyps; use_int; solve_int; fail);
+        try (eapply IH; [|exact H]; norm_hyps; use_int; solve_int; fail).
+    + repeat (bm_hyp H);
+        try (inversion H; subst; clear H; norm_hyps; use_int; solve_int; fail);
+        try (eapply IH; [|exact H]; norm_hyps; use_int; solve_int; fail).
+    + repeat (bm_hyp H);
+        try (inversion H; subst; clear H; norm_hyps; use_int; solve_int; fail);
+        try (eapply IH; [|exact H]; norm_hyps; use_int; solve_int; fail).
+    + cbv zeta in H.
+      match type of H with
+      | context [match ?x with _ => _ end] =>
+          match x with
+          | context [exec_start_suspender] => destruct x as [[s3 cr] o3] eqn:Hp
+          end
+      end.
+      apply process_mono in Hp.
+      2: { destruct (mobj m); destruct (cache P D _); try destruct (rewindable P D _ && cacheable (mcmd m)); solve_int. }
+      destruct cr.
+      * eapply IH; [|exact H]. exact Hp.
+      * inversion H; subst. solve_int.
+    + eapply IH; [|exact H]. destruct popped; solve_int.
+    + repeat (bm_hyp H);
+        try (inversion H; subst; clear H; norm_hyps; use_int; solve_int; fail);
+        try (eapply IH; [|exact H]; norm_hyps; use_int; solve_int; fail).
+    + repeat (bm_hyp H);
+        try (inversion H; subst; clear H; norm_hyps; use_int; solve_int; fail);
+        try (eapply IH; [|exact H]; norm_hyps; use_int; solve_int; fail).
+    + destruct (finalize P presume D dev s r pending) as [s1 o1] eqn:E. apply finalize_int in E.
+      inversion H; subst. congruence.
+Qed.
+
+
+Lemma task_step_mono (s : st) s' o : intr s = true -> task_step P presume plan_of D dev s = (s', o) -> intr s' = true.
+Proof.
+  unfold task_step. intros Hi H.
+  repeat (bm_hyp H);
+    try (inversion H; subst; clear H; norm_hyps; use_int; solve_int; fail);
+    try (eapply drive_mono; [|exact H]; norm_hyps; use_int;
+         repeat match goal with Hd : request_pause _ _ _ _ = _ |- _ => apply request_pause_mono in Hd; [|solve_int] end;
+         solve_int; fail);
+    try (apply finalize_int in H; solve_int).
+Qed.
+
+Lemma req_result_int (s : st) e s' o : req_result P D s e = (s', o) -> intr s' = intr s.
+Proof. unfold req_result. intros H; inversion H; subst. destruct (mreq P D s); reflexivity. Qed.
+
+(* the mark survives every event except a new call and a resume *)
+Theorem interrupted_sticky (s : st) e s' o :
+  match e with EvMain (ACall _) | EvMain AResume => False | _ => True end ->
+  step P presume plan_of D dev s e = (s', o) -> intr s = true -> intr s' = true.
+Proof.
+  destruct e as [a|a| | |defer|rs| | |sid pre post|sid|sid ok| |]; try destruct a; try contradiction; intros _.
+  all: try (cbn [step]; intros H Hi; inversion H; subst; solve_int).
+  - (* EvTask *) intros H Hi. eapply task_step_mono; eassumption.
+  - (* EvReqPause *)
+    cbn [step]. destruct (request_pause P D s defer) as [[s1 e1] o1] eqn:E1.
+    destruct (req_result P D s1 e1) as [s2 o2] eqn:E2. apply req_result_int in E2.
+    intros H Hi; inversion H; subst. apply (request_pause_mono _ _ _ _ _ E1) in Hi. congruence.
+  - (* EvReqAbort *)
+    intros H Hi. cbn [step] in H.
+    repeat (bm_hyp H);
+      repeat match goal with Hc : context [if ?c then _ else _] |- _ => destruct c eqn:? end;
+      repeat match goal with Hr : req_result _ _ _ _ = _ |- _ => apply req_result_int in Hr end;
+      use_int; inversion H; subst; solve_int.
+  - (* EvReqStop *)
+    intros H Hi. cbn [step] in H.
+    repeat (bm_hyp H);
+      repeat match goal with Hc : context [if ?c then _ else _] |- _ => destruct c eqn:? end;
+      repeat match goal with Hr : req_result _ _ _ _ = _ |- _ => apply req_result_int in Hr end;
+      use_int; inversion H; subst; solve_int.
+  - (* EvReqHalt *)
+    intros H Hi. cbn [step] in H.
+    repeat (bm_hyp H);
+      repeat match goal with Hc : context [if ?c then _ else _] |- _ => destruct c eqn:? end;
+      repeat match goal with Hr : req_result _ _ _ _ = _ |- _ => apply req_result_int in Hr end;
+      use_int; inversion H; subst; solve_int.
+  - (* EvReqSuspend *)
+    cbn [step]. cbv zeta.
+    set (s0 := set_futs P D s (if amem sid (futs P D s) then futs P D s else aset sid false (futs P D s))).
+    match goal with
+    | |- context [match ?x with _ => _ end] =>
+        match x with context [resumable] => destruct x as [[s3 e3] o3] eqn:E1 end
+    end.
+    intros H Hi.
+    assert (K3 : intr s3 = true).
+    { destruct (negb (resumable P D s0)); [|inversion E1; subst; exact Hi].
+      unfold set_state in E1. destruct (allowed _ Aborting); [|inversion E1; subst; reflexivity].
+      destruct (rstate_eqb _ Paused); inversion E1; subst; rewrite ?ct_int; reflexivity. }
+    destruct e3.
+    + destruct (req_result P D s3 (Some e)) as [s4 o4] eqn:E4. apply req_result_int in E4. inversion H; subst. congruence.
+    + destruct (rstate_eqb (state P D s3) Paused).
+      * match type of H with context [req_result P D ?sx None] => destruct (req_result P D sx None) as [s5 o5] eqn:E5 end.
+        apply req_result_int in E5. inversion H; subst. solve_int.
+      * unfold set_state in H. destruct (allowed (state P D s3) Suspending).
+        -- match type of H with context [req_result P D ?sx None] => destruct (req_result P D sx None) as [s6 o6] eqn:E6 end.
+           apply req_result_int in E6. inversion H; subst. solve_int.
+        -- destruct (req_result P D s3 (Some ETransition)) as [s5 o5] eqn:E5. apply req_result_int in E5. inversion H; subst. congruence.
+  - (* EvStatus *)
+    cbn [step]. intros H Hi.
+    destruct (negb ok && negb (pardon P D (set_statuses P D s (aset sid (Some ok) (statuses P D s))))); inversion H; subst; solve_int.
+  - (* EvCacheDone *)
+    cbn [step]. intros H Hi. inversion H; subst. destruct (pc P D s) as [| | | | |k| |]; try exact Hi.
+    destruct k; try exact Hi. rewrite mark_cached_int. exact Hi.
+Qed.
+
+(* a stop / halt request on an engine that is not idle sets the mark (like the abort request above) *)
+Theorem stop_halt_request_marks (s : st) e s' o :
+  (e = EvReqStop \/ e = EvReqHalt) -> state P D s <> Idle ->
+  step P presume plan_of D dev s e = (s', o) -> intr s' = true.
+Proof.
+  intros He Hi. apply rstate_eqb_false in Hi.
+  assert (Hc : forall x : st, cancel_task P D x = x \/ cancel_task P D x = set_must_cancel P D x true)
+    by (intros x; unfold cancel_task; destruct (pc P D x); auto).
+  destruct He as [-> | ->]; cbn [step]; rewrite Hi; unfold set_state, req_result.
+  - destruct (allowed (state P D (interrupt P D s CzStop)) Stopping).
+    + destruct (rstate_eqb (state P D (interrupt P D s CzStop)) Paused).
+      * intros H; inversion H; subst; clear H. destruct (mreq P D _); reflexivity.
+      * destruct (Hc (set_state_raw P D (interrupt P D s CzStop) Stopping)) as [E|E]; rewrite E;
+          intros H; inversion H; subst; clear H; destruct (mreq P D _); reflexivity.
+    + intros H; inversion H; subst; clear H. destruct (mreq P D _); reflexivity.
+  - destruct (allowed (state P D (interrupt P D s CzHalt)) Halting).
+    + destruct (rstate_eqb (state P D (interrupt P D s CzHalt)) Paused).
+      * intros H; inversion H; subst; clear H. destruct (mreq P D _); reflexivity.
+      * destruct (Hc (set_state_raw P D (interrupt P D s CzHalt) Halting)) as [E|E]; rewrite E;
+          intros H; inversion H; subst; clear H; destruct (mreq P D _); reflexivity.
+    + intros H; inversion H; subst; clear H. destruct (mreq P D _); reflexivity.
+Qed.
+
 End Exit.
